@@ -95,6 +95,8 @@ CONSUMERS = {
     "marshal-unmarshal-deep": "(unmarshal (marshal (nest-array (min D 900))))",
     "unmarshal-handbuilt-deep-arrays": '(def b @"") (repeat D (buffer/push b "\\xD1\\x01")) (buffer/push b "\\xC9") (unmarshal b)',
     "unmarshal-handbuilt-deep-tuples": '(def b @"") (repeat D (buffer/push b "\\xD2\\x01\\x00")) (buffer/push b "\\xC9") (unmarshal b)',
+    "unmarshal-handbuilt-deep-channels": '(def b @"\\xD9\\xCF\\x0ccore/channel\\0\\0\\x01\\x01") (repeat D (buffer/push b "\\xD9\\xDA\\0\\0\\0\\x01\\x01")) (buffer/push b "\\xD9\\xDA\\0\\0\\0\\x01\\0") (unmarshal b)',
+    "marshal-deep-channels": "(var c (ev/chan 1)) (repeat (min D 100000) (def o (ev/chan 1)) (ev/give o c) (set c o)) (marshal c)",
     "gc-deep-arrays": "(def x (nest-array D)) (gccollect) (length x)",
     "gc-deep-linked-tables": "(def x (nest-table D)) (gccollect) (gccollect) (length x)",
     "gc-deep-mixed-walk": "(def x (nest-mixed D)) (gccollect) (churn) (gccollect) (walk-mixed x D)",
